@@ -20,7 +20,7 @@ import lib
 
 ID = 'C16'
 PROPS_FILE = 'Props/C16.v'
-MODEL_FILES = ['Funcs/Funcs.v', 'Funcs/EvalIdx.v', 'Funcs/FuncsF.v']
+MODEL_FILES = ['Funcs/Funcs.v', 'Funcs/FuncsConv.v', 'Funcs/EvalIdx.v', 'Funcs/FuncsF.v']
 K_NAME = ('K_helpers (Funcs.observe over PrimFloat / Z vs fsic.functions.lag/lead/diff/dlog) + K_rewrite (EvalIdx.eval_text / rewrite, '
           'extracted to OCaml, vs VectorContainer._resolve_expression_indexes: string equality) + K_namespace (EvalIdx.eval_M vs eval()) '
           '+ K_int (EvalIdx.parse_int_raw / parse_pyint vs CPython int(s) / int(s.strip()))')
@@ -39,6 +39,7 @@ ASSUMPTIONS = ['arrays are float64 (or int64 with an integer fill value); string
                'pandas get_loc / `in` answers for PeriodIndex spans are recorded and supplied to the model as a table (C10\'s business)',
                'the expression itself has no side effects; CPython evaluates the rewritten text (not modelled: pyeval is a Section variable)']
 EXHAUSTIVE = {'quick': True, 'thorough': True}
+SOURCES = ['functions.py', 'core/containers.py']
 CASE_TIMEOUT = 30
 
 FUNCS = ['lag', 'lead', 'diff', 'dlog']
@@ -49,6 +50,7 @@ SIG15B = 'C16|eval→_resolve_expression_indexes|positional-bracket-ValueError'
 SIG26 = 'C16|diff(x,0)|returns-x-not-zeros'
 SIG_LEAK = 'C16|eval(globals=None)|module-global-visible'
 SIG_LBL = 'C16|eval→_resolve_expression_indexes|label-with-colon-bracket-or-backtick'
+SIG_INTFILL = 'C16|lag/lead/diff|integer-array-fill-not-representable'
 
 
 # =========================================================================== implementation side
@@ -87,7 +89,11 @@ def _mk_array(case):
 
 
 def _fill(case):
-    return lib.unhex(case['fill']) if case['dtype'] == 'f' else int(case['fill'])
+    if case['dtype'] == 'f':
+        return lib.unhex(case['fill'])
+    if isinstance(case['fill'], dict):                 # an int64 array with a float fill value
+        return lib.unhex(case['fill']['f'])
+    return int(case['fill'])
 
 
 def _vals(a, dtype):
@@ -275,6 +281,16 @@ def _outer_get(name):
     return vars(M)[name] if name in vars(M) else getattr(B, name)
 
 
+class _Tag:
+    """a callable value that knows where it came from (locals / builtins= entries are usually functions)"""
+
+    def __init__(self, t):
+        self.t = t
+
+    def __call__(self, *a, **k):
+        return self.t
+
+
 def impl_ns(case):
     import numpy as np
     import fsic.functions as F
@@ -284,17 +300,17 @@ def impl_ns(case):
         c.add_variable(v, float(i))
     kw = {}
     if case['locals'] is not None:
-        kw['locals'] = {k: 'L:' + k for k in case['locals']}
+        kw['locals'] = {k: _Tag('L:' + k) for k in case['locals']}
     bi = None
     if case['bi'] is not None:
-        bi = {k: 'B:' + k for k in case['bi']}
+        bi = {k: _Tag('B:' + k) for k in case['bi']}
         kw['builtins'] = bi
     before, tb = _snapshot(c), _table_snapshot()
     locals_before = dict(kw['locals']) if 'locals' in kw else None
 
     def tag(r):
-        if isinstance(r, str):
-            return r
+        if isinstance(r, _Tag):
+            return r.t
         if isinstance(r, np.ndarray):
             for v in c.index:
                 if c.__dict__['_' + v] is r:
@@ -690,6 +706,13 @@ def gen_helpers(rng, tier):
             for fill in (0, -7):
                 for f in ('lag', 'lead', 'diff'):
                     cases.append({'kind': 'helper', 'f': f, 'dtype': 'i', 'rank': 1, 'x': xi, 'p': p, 'fill': fill})
+    # int64 arrays with float fill values: the default NaN, infinities, fractional and integral floats (cast by NumPy)
+    for n in range(0, 4 if tier == 'quick' else 7):
+        xi = [rng.randint(-9, 9) for _ in range(n)]
+        for p in range(-n - 1, n + 2):
+            for fl in (float('nan'), float('inf'), float('-inf'), 1.5, -1.5, 2.0, -0.0):
+                for f in ('lag', 'lead', 'diff'):
+                    cases.append({'kind': 'helper', 'f': f, 'dtype': 'i', 'rank': 1, 'x': xi, 'p': p, 'fill': {'f': lib.fhex(fl)}})
     for f in FUNCS:
         for p in (-1, 0, 1, 2):
             cases.append({'kind': 'helper', 'f': f, 'dtype': 'f', 'rank': 0, 'x': [lib.fhex(3.0)], 'p': p, 'fill': lib.fhex(float('nan'))})
@@ -914,6 +937,38 @@ def oracle_helper(case, obs, fails):
     x = [lib.unhex(v) for v in case['x']] if isf else list(case['x'])
     fill = lib.unhex(case['fill']) if isf else case['fill']
     n = len(x)
+    if isinstance(fill, dict):
+        # int64 array, float fill: the statement wants the fill value itself outside the array
+        fv = lib.unhex(fill['f'])
+        if obs['x_after'] != case['x']:
+            bad('C16|%s|input-modified' % f, '%s(x, %d) modified its argument: %s -> %s' % (f, p, case['x'], obs['x_after']))
+        if f == 'diff' and p < 0:
+            return
+        q = p if f != 'lead' else -p
+        out = obs['out']
+        if out[0] == 'raise':
+            if (fv != fv and out[1] == 'ValueError') or (fv in (float('inf'), float('-inf')) and out[1] == 'OverflowError'):
+                bad(SIG_INTFILL, '%s(int64 array of length %d, %d, fill_value=%r) raises %s (the fill value cannot be cast to the array dtype)' % (f, n, p, fv, out[1]))
+            else:
+                bad('C16|%s|raised' % f, '%s(x, %d, fill_value=%r) raised %s on a 1-D array' % (f, p, fv, out[1]))
+            return
+        if f in ('lag', 'lead'):
+            want = [x[i - q] if 0 <= i - q < n else fv for i in range(n)]
+        elif p == 0:
+            return                                       # diff(x, 0): finding #26, reported by the int-fill cases
+        else:
+            want = [(x[i] - x[i - p]) if i >= p else fv for i in range(n)]
+        got = out[1]
+        if len(got) != n:
+            bad('C16|%s|length' % f, '%s(x, %d): result length %d for an input of length %d' % (f, p, len(got), n))
+            return
+        gv = [lib.unhex(g) if isinstance(g, str) else g for g in got]          # (a float result is fine: values are compared)
+        wrong = [i for i in range(n) if not (gv[i] == want[i] or (gv[i] != gv[i] and want[i] != want[i]))]
+        if wrong and all(isinstance(want[i], float) and isinstance(gv[i], int) and not float(want[i]).is_integer() for i in wrong):
+            bad(SIG_INTFILL, '%s(int64 array, %d, fill_value=%r) stores a truncated value instead of the fill value: %s' % (f, p, fv, got))
+        elif wrong:
+            bad('C16|%s|values' % f, '%s(x, %d, fill_value=%r): got %s want %s' % (f, p, fv, got, want))
+        return
 
     def eq(a, b):
         return lib.fhex(a) == lib.fhex(b) if isf else a == b
@@ -1002,7 +1057,7 @@ def guard(case, obs):
     """Inside the guard class of a kept finding the model mirrors a defect; K is not compared there."""
     k = case['kind']
     if k == 'helper':
-        return case['f'] == 'diff' and case['p'] == 0
+        return case['f'] == 'diff' and case['p'] == 0 and not isinstance(case['fill'], dict)
     if k == 'expr':
         has_tick, nonlit, stop = _risky(case)
         return bool(has_tick and (nonlit or stop)) or _d0(case)
@@ -1053,7 +1108,7 @@ def _c_outcome_list(out, conv):
 FN = {'lag': 'FLag', 'lead': 'FLead', 'diff': 'FDiff', 'dlog': 'FDlog'}
 PRE_H = '''From Coq Require Import PrimFloat ZArith List Bool String Ascii.
 Import ListNotations.
-Require Import Fsic.Base.PyBase Fsic.Funcs.Funcs Fsic.Funcs.EvalIdx Fsic.Funcs.FuncsF.
+Require Import Fsic.Base.PyBase Fsic.Funcs.Funcs Fsic.Funcs.FuncsConv Fsic.Funcs.EvalIdx Fsic.Funcs.FuncsF.
 Open Scope float_scope. Open Scope Z_scope.
 '''
 
@@ -1070,6 +1125,28 @@ def _h_term(case, obs):
     return '(mkH %s %s %s %s %s %s %s %s)' % (FN[case['f']], lib.cnat(case['rank']), lib.clist(conv(v) for v in case['x']), lib.cZ(case['p']),
                                               conv(case['fill']), _c_outcome_list(obs['out'], conv), lib.cbool(obs['same']),
                                               lib.clist(conv(v) for v in obs['x_after']))
+
+
+def _c_pyfill(fill):
+    v = lib.unhex(fill['f'])
+    if v != v:
+        return 'PFNan'
+    if v in (float('inf'), float('-inf')):
+        return 'PFInf'
+    if float(v).is_integer():
+        return '(PFInt %s)' % lib.cZ(int(v))
+    return '(PFFrac %s)' % lib.cZ(int(v))               # int() truncates toward zero, as NumPy's cast does
+
+
+def _c_term(case, obs):
+    conv = lib.cZ
+    out = obs['out']
+    if out[0] == 'ret':
+        o = _c_outcome_list(out, conv)
+    else:
+        o = '(Raise %s)' % (out[1] if out[1] in ('ValueError', 'OverflowError', 'NotImplementedError', 'TypeError') else 'OtherError')
+    return '(mkCC %s %s %s %s %s %s %s %s)' % (FN[case['f']], lib.cnat(case['rank']), lib.clist(conv(v) for v in case['x']), lib.cZ(case['p']),
+                                               _c_pyfill(case['fill']), o, lib.cbool(obs['same']), lib.clist(conv(v) for v in obs['x_after']))
 
 
 # ---- OCaml extraction of the string model
@@ -1233,7 +1310,12 @@ def correspond(cases, obs, tag, tier):
     bad, errors = [], []
     # ---- helpers inside Coq
     hf = [i for i, c in enumerate(cases) if c['kind'] == 'helper' and c['dtype'] == 'f']
-    hz = [i for i, c in enumerate(cases) if c['kind'] == 'helper' and c['dtype'] == 'i']
+    hz = [i for i, c in enumerate(cases) if c['kind'] == 'helper' and c['dtype'] == 'i' and not isinstance(c['fill'], dict)]
+    hc = [i for i, c in enumerate(cases) if c['kind'] == 'helper' and c['dtype'] == 'i' and isinstance(c['fill'], dict)]
+    if hc:
+        b, e = lib.run_coq_cases(tag + '_hc', PRE_H, [_c_term(cases[i], obs[i]) for i in hc], 'bad_idx check_hC 0%nat cs', shard=1000)
+        bad += [hc[j] for j in b]
+        errors += e
     if hf:
         b, e = lib.run_coq_cases(tag + '_hf', PRE_H, [_h_term(cases[i], obs[i]) for i in hf], 'bad_idx check_hF 0%nat cs', shard=500)
         bad += [hf[j] for j in b]
